@@ -267,6 +267,11 @@ func (f *Formatter) formatNode(n *html.Node, buf *strings.Builder, depth int) {
 		if n.Data == "pre" {
 			buf.WriteString(indent)
 			buf.WriteString(f.renderOpenTag(n))
+			// The parser drops one newline directly after <pre>: content that itself starts with a
+			// newline needs an extra one to survive (as the HTML serialisation algorithm prescribes).
+			if c := n.FirstChild; c != nil && c.Type == html.TextNode && strings.HasPrefix(c.Data, "\n") {
+				buf.WriteString("\n")
+			}
 			f.renderPreContent(n, buf)
 			buf.WriteString(f.renderCloseTag(n))
 			buf.WriteString("\n")
